@@ -176,6 +176,10 @@ func runC03(c *Ctx) {
 	// header may declare 2^63 or more, which reads as a negative int64): no path of it turns into an unbounded copy.
 	c.rule("W8", "safeio.CopyNWithContext copies through io.CopyN with the count it was given on every path: no unbounded copy (io.Copy, CopyDataWithContext) is reachable in it, whatever the count", 1)
 	c.copyNBounded("W8")
+	// W9: the limits apply whichever variant of the extraction is called
+	c.rule("W9", "every variant of the extraction (package-level function, method, with or without context) that is a one-line forwarder hands each of its parameters — the limits among them — to the call it forwards to, exactly once", 5)
+	c.forwardersKeepTheirArguments("W9", []string{fsPkgRel}, func(f *ssa.Function) bool { return strings.Contains(f.Name(), "nzip") },
+		"that variant of the extraction runs without what the caller gave it — called through it, an archive over the limits is extracted in full and reported as a success, nested archives are not expanded and no depth applies")
 
 	// ---- W1 -----------------------------------------------------------------
 	c.c03Guarded(uzf, "W1", "GetMaxFileSize", false, func(in ssa.Instruction) bool {
